@@ -272,7 +272,8 @@ IONS = ['[CH3+]', 'C[CH2+]', 'C[O-]', 'CC(=O)[O-]', 'C[NH3+]', '[OH-]', '[CH2-]C
         'C[CH+]C', '[CH2-]C=C', 'C[O+](C)C', '[O-]C(=O)C[CH2+]', 'C[CH-]C', 'OC[CH2+]', '[CH2+]C[Pt]', 'C[C+]=O']
 POLYCYCLIC = ['C1CCC2CCCC2C1', 'C1CC2CCCC12', 'C1CC12CCC2', 'C1CC2CCC12', 'C1CCC2(C1)CCCCC2', 'C1CC2CC1CCC2', 'C1CC2CCC1C2', 'C1CCC2CC2C1',
               'C1CC2OC2C1', 'C1=CC2CCCC2C1', 'C1CCC2CCCCC2C1', 'C12CC1C2', 'C1CC2CC3CC1C23', 'OC1CC2CCC1C2', 'C1COC2CCCC2C1', 'c1ccc2CCCc2c1',
-              'C1CC2CCC1[CH]2', '[Pt]C1CC2CCCC12']
+              'C1CC2CCC1[CH]2', '[Pt]C1CC2CCCC12', 'C12CC(C1)C2', 'C1CC2CCC1CC2', 'C12C3C4C1C5C2C3C45', 'C1C2CC3CC1CC(C2)C3', 'C1C2CC1C2',
+              'C12CC(C1)(C2)C', 'OC12CC(C1)C2', 'C1CC2(C1)CC2']
 
 
 def special():
